@@ -189,6 +189,19 @@ def get_wild_extra_targets(shape: BaseShape, extra_move: Union[InpExtraMove, Out
     ]
 
 
+def field_id_to_var_suffix(field_id: str) -> str:
+    """Part of a variable name of generated code that is derived from a field id.
+
+    The parser applies NFKC normalization to identifiers,
+    so two distinct ids (like ``µs`` with MICRO SIGN and ``μs`` with GREEK SMALL LETTER MU) would name one variable.
+    An id changed by the normalization gets a suffix made of its code points.
+    """
+    normalized = unicodedata.normalize("NFKC", field_id)
+    if normalized == field_id:
+        return field_id
+    return normalized + "__" + "_".join(format(ord(char), "x") for char in field_id)
+
+
 def compile_closure_with_globals_capturing(
     compiler: ClosureCompiler,
     code_gen_hook: CodeGenHook,
